@@ -380,6 +380,8 @@ class Gen:
                 base = f'~/.ssh/id_{u}'
             elif rng.random() < 0.1:
                 base = f'/keys/with space/{u}'
+            if u % 4 == 1:
+                base += '#' + str(u % 7)
             return [base]
         if name == 'SendEnv':
             return [f'{rng.choice(["LANG", "LC_*", "FOO", "BAR_?"])}{u}x{i}'
@@ -389,7 +391,8 @@ class Gen:
                     rng.choice(['1', 'x=y', 'two words', ''])
                     for i in range(rng.randint(1, 2))]
         if name in ('UserKnownHostsFile', 'GlobalKnownHostsFile'):
-            return [f'/kh/{name[0].lower()}{u}_{i}'
+            return [f'/kh/{name[0].lower()}{u}_{i}' +
+                    ('#b' if (u + i) % 5 == 0 else '')
                     for i in range(rng.randint(1, 3))]
         if name == 'CanonicalDomains':
             return rng.sample(['a.example', 'b.example', 'c.test'],
@@ -397,7 +400,8 @@ class Gen:
         if name == 'BindAddress':
             return [rng.choice(['10.0.0.1', '192.168.1.5', '::1', 'localhost'])]
         if name == 'HostKeyAlias':
-            return [f'alias{u}']
+            # ('#' starts a comment only at the beginning of a word)
+            return [f'alias{u}' + ('#x' if u % 3 == 0 else '')]
         if name == 'PKCS11Provider':
             return [f'/usr/lib/p11-{u}.so']
         # server-only
